@@ -299,4 +299,43 @@ fn u12_rebalance(np: usize, at: usize, nl: usize, nr: usize, inner: bool) {
 	}
 	std::mem::forget(parent);
 }
+
+// ================================================================== position(): the separator search every lookup / insert / seek relies on
+// keys are arbitrary (two bytes, also of different lengths) and NOT assumed sorted: the contract of the scan holds for any node
+fn key_of(n: &Node, i: usize) -> &[u8] {
+	match n.separators[i].separator.as_ref() {
+		Some(s) => &s.key[..],
+		None => &[],
+	}
+}
+fn u12_position(n: usize) {
+	let mut node = Node { separators: Default::default(), children: Default::default(), changed: false };
+	let mut i = 0;
+	while i < n {
+		let short: bool = kani::any();
+		let k: Vec<u8> = if short { vec![kani::any()] } else { vec![kani::any(), kani::any()] };
+		node.separators[i] = Separator { modified: false, separator: Some(SeparatorInner { key: k, value: Address::from_u64(1 + i as u64) }) };
+		i += 1;
+	}
+	let kshort: bool = kani::any();
+	let kb: [u8; 2] = kani::any();
+	let key: &[u8] = if kshort { &kb[..1] } else { &kb[..] };
+	match ok(node.position(key)) {
+		None => assert!(false, "U12.position.no_error"),
+		Some((found, at)) => {
+			assert!(at <= n, "U12.position.index_within_the_separators");
+			let j: usize = kani::any();
+			if j < at {
+				// every separator before the returned position is strictly smaller than the key
+				assert!(key_of(&node, j) < key, "U12.position.everything_before_is_smaller");
+			}
+			if found {
+				assert!(at < n && key_of(&node, at) == key, "U12.position.match_means_equal_key_at_that_position");
+			} else if at < n {
+				assert!(key_of(&node, at) > key, "U12.position.no_match_stops_at_the_first_greater_separator");
+			}
+		},
+	}
+	std::mem::forget(node);
+}
 /*@@GENERATED:btree_node@@*/
